@@ -225,10 +225,16 @@ def c12_pyule(ctx, case):
     p = case["p"]
     _labels(ctx, case, x)
     a, P, k = spectrum.aryule(x, p, norm="biased")
+    # the class is constructed the way users do: with or without a sampling frequency, an NFFT (also shorter than the record:
+    # the grid of the PSD, not a length of the data) and scaling; none of them may change the model it exposes
+    N = len(x)
+    kw = [{}, {"sampling": 1000.0}, {"sampling": 0.25, "NFFT": 2 * N + 1}, {"scale_by_freq": False},
+          {"NFFT": max(p + 1, N // 2)}, {"NFFT": "nextpow2"}][(p + 3 * N) % 6]
+    ctx.cls("pyule kwargs: %s" % (",".join(sorted(kw)) or "none"))
     if case["explicit_norm"]:
-        obj = spectrum.pyule(x, p, norm="biased")
+        obj = spectrum.pyule(x, p, norm="biased", **kw)
     else:
-        obj = spectrum.pyule(x, p)
+        obj = spectrum.pyule(x, p, **kw)
     obj()
     ctx.close(np.asarray(obj.ar).astype(complex), np.asarray(a).astype(complex), "pyule.ar vs aryule", rtol=1e-12, atol=0)
     ctx.close(np.asarray(obj.reflection).astype(complex), np.asarray(k).astype(complex), "pyule.reflection vs aryule",
